@@ -463,6 +463,9 @@ func (s *Sched) step(t *Task, op uint8) {
 	s.Steps++
 	t.Steps++
 	s.TraceHash = HashAdd(s.TraceHash, uint64(t.ID)<<8|uint64(op))
+	if StepLog != nil {
+		StepLog(s.Steps, t.ID, op)
+	}
 	if s.Steps >= s.cfg.MaxSteps && !s.Aborted {
 		s.abort("step budget exhausted")
 	}
@@ -471,6 +474,9 @@ func (s *Sched) step(t *Task, op uint8) {
 		runtime.Goexit()
 	}
 }
+
+// StepLog, when set (debugging aid of the determinism self-test: VERIF_STEPLOG), is told every scheduling point.
+var StepLog func(step int, task int, op uint8)
 
 // Yield is a scheduling point placed before every atomic / lock operation of
 // the instrumented code.
